@@ -158,7 +158,7 @@ def check_directional(ctx, R="C07.directional"):
     mco = [f for f in ast.walk(helper) if isinstance(f, ast.FunctionDef) and f.name == "makeContactOffset"]
     if mco:
         f = mco[0]
-        rr = {tuple((unparse(t), p) for t, p in lib.guard_tests(r, f)): unparse(r.value) for r in lib.returns_of(f)}
+        rr = {tuple((unparse(t), p) for t, p in lib.path_conditions(r, f)): unparse(r.value) for r in lib.returns_of(f)}
         d_, ct = [a.arg for a in f.args.args]
         if rr.get(((f"{d_} is None", True),)) == f"{ct} / 2" and rr.get(((f"{d_} is None", False),)) == "0":
             ctx.ok(R, f, "contact offset = contactTolerance/2 exactly when no distance is given")
